@@ -451,7 +451,7 @@ func c05R4(p *core.Prog, r *core.Report) {
 // C06
 
 func checkC06(p *core.Prog, r *core.Report) {
-	r.Explanation = "Decides structural necessary conditions of hold expiry: (R1) every store to a hold's deadline is start + E*unit + 1 (start = current time, or the lock's startTime set from the current time on the same path) with the unit selected by the matching flag tests and the period widened before scaling, or the never-expiring sentinel under the unlimited flag (tabled: not-yet-granted zero, keep-alive and follower re-arm, clamp to the sweeper); (R2) the sweeper hands a wheel entry to the expiry queue only on expriedTime <= now, and sweeps the long table Len() times before retiring it; (R3) wheel constants incl. back-off+2 <= 10 and the slot chosen by AddExpried is never behind the sweeper; (R5) doExpried's effect order on the live path: tombstone, depth subtraction, RemoveLock under the mutex, then one EXPRIED reply and the wake-up pass; (R6) when an update or re-lock changes the deadline of a hold that sits in the long-wait table, the entry is removed under its old deadline and re-inserted (with its reference) - skipped only when the deadline is unchanged; (R7) a sweeper re-arms an entry only after testing its tombstone clear. NOT decided: the upper bounds E+2 s / 10 s (sweeper liveness), behaviour across the 16-slot wrap under load."
+	r.Explanation = "Decides structural necessary conditions of hold expiry: (R1) every store to a hold's deadline is start + E*unit + 1 (start = current time, or the lock's startTime set from the current time on the same path) with the unit selected by the matching flag tests and the period widened before scaling, or the never-expiring sentinel under the unlimited flag (tabled: not-yet-granted zero, keep-alive and follower re-arm, clamp to the sweeper); (R2) the sweeper hands a wheel entry to the expiry queue only on expriedTime <= now, and sweeps the long table Len() times before retiring it; (R3) wheel constants incl. back-off+2 <= 10 and the slot chosen by AddExpried is never behind the sweeper; (R5) doExpried's effect order on the live path: tombstone, depth subtraction, RemoveLock under the mutex, then one EXPRIED reply and the wake-up pass; (R6) when an update or re-lock changes the deadline of a hold that sits in the long-wait table, the entry is removed under its old deadline and re-inserted (with its reference) - skipped only when the deadline is unchanged; (R7) a sweeper re-arms an entry only after testing its tombstone clear; (R8) a recycled long-wait bucket has every field re-assigned that freeing it overwrote. NOT decided: the upper bounds E+2 s / 10 s (sweeper liveness), behaviour across the 16-slot wrap under load."
 	r.Assumptions = []string{"Go type checker and go/ssa are correct for /repo", "the server clock LockDB.currentTime is second-granular and monotone"}
 	deadlineRule(p, r, deadlineSpec{rule: "C06/R1", field: fk("server.Lock", "expriedTime"), amount: "Expried", flagName: "ExpriedFlag",
 		exceptions: map[string]map[string]string{
@@ -468,6 +468,7 @@ func checkC06(p *core.Prog, r *core.Report) {
 	slotRule(p, r, "C06/R3", "server.(*LockDB).AddExpried", "checkExpriedTime", "expriedTime", "expriedCheckedCount")
 	c06R5(p, r)
 	c06R6(p, r)
+	c06R8(p, r)
 	rearmRule(p, r, "C06/R7", []string{"server.(*LockDB).checkTimeExpried", "server.(*LockDB).checkMillisecondExpried"}, "Expried", "expried")
 }
 
@@ -725,5 +726,79 @@ func rearmRule(p *core.Prog, r *core.Report, rule string, fns []string, kind, to
 			r.Fail("%s %s: %s", rule, name, ex.Imprecise)
 		}
 		_ = n
+	}
+}
+
+// c06R8: long-wait buckets are pooled. FreeLongWaitLockQueue overwrites the
+// bucket's bookkeeping (lockTime, lockCount, freeCount) with "free" markers;
+// GetLongWaitLockQueue has to write each of those fields again for the
+// recycled bucket. lockTime in particular is the map key
+// restructuringLong*Queue uses when a bucket empties: a stale one deletes the
+// wrong entry and a later bucket is swept at an earlier deadline.
+func c06R8(p *core.Prog, r *core.Report) {
+	const rule = "C06/R8"
+	r.Rule(rule, "GetLongWaitLockQueue re-assigns, for a recycled bucket, every field that FreeLongWaitLockQueue overwrote", 1)
+	free := mustFunc(p, r, "server.(*LongWaitLockFreeQueue).FreeLongWaitLockQueue")
+	get := mustFunc(p, r, "server.(*LongWaitLockFreeQueue).GetLongWaitLockQueue")
+	if free == nil || get == nil {
+		return
+	}
+	poisoned := map[string]bool{}
+	for _, b := range free.Blocks {
+		for _, ins := range b.Instrs {
+			if st, ok := ins.(*ssa.Store); ok {
+				if fa, ok := st.Addr.(*ssa.FieldAddr); ok {
+					if k := core.FieldKeyOf(fa.X.Type(), fa.Field); k.Type == "server.LongWaitLockQueue" {
+						poisoned[k.Field] = true
+					}
+				}
+			}
+		}
+	}
+	if len(poisoned) == 0 {
+		r.Fail("C06/R8: FreeLongWaitLockQueue overwrites no field")
+		return
+	}
+	n := 0
+	ex := core.NewExplorer(p, core.Hooks{
+		Inline: func(x *core.X, c *ssa.Function) bool {
+			return core.InModule(c) && recvName(c) == "LongWaitLockFreeQueue"
+		},
+		Instr: func(x *core.X) {
+			if st, ok := x.Ins.(*ssa.Store); ok {
+				if fa, ok := st.Addr.(*ssa.FieldAddr); ok {
+					if k := core.FieldKeyOf(fa.X.Type(), fa.Field); k.Type == "server.LongWaitLockQueue" {
+						x.Set("as:"+k.Field, "1")
+					}
+				}
+			}
+		},
+		Exit: func(x *core.X, rets []core.Expr) {
+			if len(rets) != 1 || rets[0].S == "nil" || strings.HasPrefix(rets[0].S, "NewLongWaitLockQueue(") {
+				return
+			}
+			n++
+			var missing []string
+			for f := range poisoned {
+				if x.Get("as:"+f) != "1" {
+					missing = append(missing, f)
+				}
+			}
+			sort.Strings(missing)
+			key := "server.(*LongWaitLockFreeQueue).GetLongWaitLockQueue: recycled bucket"
+			if len(missing) == 0 {
+				r.Hold(rule, key, x.Pos(), "bookkeeping re-initialised")
+			} else {
+				r.Violate(rule, key, x.Pos(), "a recycled bucket is returned with "+strings.Join(missing, ", ")+" still holding the value written when it was freed: the stale lockTime is used as the map key when the bucket empties, the wrong entry is deleted and a later bucket is swept at an earlier deadline (holds end early)", x.St.Trace)
+			}
+		},
+	})
+	ex.NoHist = true
+	ex.Run(get, nil)
+	if ex.Imprecise != "" {
+		r.Fail("C06/R8: %s", ex.Imprecise)
+	}
+	if n == 0 {
+		r.Fail("C06/R8: no recycled-bucket return found")
 	}
 }
